@@ -912,8 +912,50 @@ func ruleRepStackEscape(c *Ctx, r *R) {
 								}
 							}
 						}
+						// ... and the non-nil receiver is a script slice (sliceT.Append copies the items out of
+						// the view) or was given items of its own: Value.Append dispatches to whatever Object
+						// the value holds, and a host object may keep what it is handed
+						ownItems := false
 						if guarded {
-							r.ok(key, "stack view reaches Value.Append only under receiver.value != nil (the retaining branch is the nil one)")
+							argID, _ := unparen(a).(*ast.Ident)
+							if blk, ok := c.Parent(c.Parent(call)).(*ast.BlockStmt); ok && argID != nil {
+								for _, st := range blk.List {
+									if st.Pos() >= call.Pos() {
+										break
+									}
+									ifs, ok := st.(*ast.IfStmt)
+									if !ok || ifs.Init == nil {
+										continue
+									}
+									ia, ok := ifs.Init.(*ast.AssignStmt)
+									if !ok || len(ia.Rhs) != 1 || len(ia.Lhs) != 2 {
+										continue
+									}
+									ta, ok := unparen(ia.Rhs[0]).(*ast.TypeAssertExpr)
+									if !ok || nosp(c.Src(ta.X)) != recv+".value" || !strings.HasSuffix(nosp(c.Src(ta.Type)), "sliceT") {
+										continue
+									}
+									if nosp(c.Src(ifs.Cond)) != "!"+nosp(c.Src(ia.Lhs[1])) {
+										continue
+									}
+									// the body replaces the argument by a fresh copy
+									for _, bs := range ifs.Body.List {
+										if as, ok := bs.(*ast.AssignStmt); ok && len(as.Lhs) == 1 && len(as.Rhs) == 1 && nosp(c.Src(as.Lhs[0])) == argID.Name {
+											rs := nosp(c.Src(as.Rhs[0]))
+											if strings.HasPrefix(rs, "append([]Value(nil),") || strings.HasPrefix(rs, "append([]Value{},") || strings.HasPrefix(rs, "slices.Clone(") {
+												ownItems = true
+											}
+										}
+									}
+								}
+							}
+						}
+						if guarded && ownItems {
+							r.ok(key, "stack view reaches Value.Append only for a script slice (which copies); any other object gets a copy")
+							continue
+						}
+						if guarded {
+							r.fail(key, c.Pos(call), name+" hands a view of the VM's operand stack to Value.Append of a non-nil value: a script slice copies the items, but the value may hold a host Object (Wrap), whose Append(items ...Value) may keep them — the host then reads later stack contents ([200 300] instead of [1 2]); give any receiver that is not a *sliceT a copy")
 							continue
 						}
 					}
